@@ -176,7 +176,8 @@ def classify(prop: str, v: dict, findings: List[dict]) -> Optional[dict]:
     for f in findings:
         if f.get("status", "known") != "known" or f.get("property") != prop:
             continue
-        if f.get("sub") not in (None, "*", v["sub"]):
+        fs = f.get("sub")
+        if fs not in (None, "*") and v["sub"] not in str(fs).split("|"):
             continue
         if _match(f["sig"], v["sig"]):
             return f
